@@ -37,7 +37,37 @@ def _c04(tier, seed):
                  runs=runs, validate_runs=["H_C04_short(39)", "H_C04_unencrypted(40)", "H_C04_keyholder(3)", "H_C04_tamper(12,1)", "H_C04_tamper(12,2)"],
                  solver="cvc5", covers={"H_C04_keyholder": ["keyholder-accepted"], "H_C04_unencrypted": ["unenc-accepted"]})]
 
+def _c08(tier, seed):
+    q = tier == "quick"
+    runs = []
+    # word counts around the 127-word switch, plus small ones; thorough adds larger frames
+    rng = [(0, 8), (120, 132)] if q else [(0, 40), (100, 140), (250, 260)]
+    for v in (0, 1):
+        for lo, hi in rng:
+            runs.append("H_C08_write(%d,%d,%d)" % (v, lo, hi))
+        runs.append("H_C08_unaligned(%d,%d)" % (v, 17 if q else 41))
+        runs.append("H_C08_roundtrip(%d,%d,0,3)" % (v, 2 if q else 3))
+        runs.append("H_C08_roundtrip(%d,2,125,128)" % v)
+        runs.append("H_C08_readframe(%d,%d)" % (v, 6 if q else 12))
+    if not q:
+        runs += ["H_C08_write(0,16383,16384)", "H_C08_write(1,16383,16384)"]
+    runs += ["H_C08_detect(%d)" % n for n in (0, 1, 2, 3, 4, 5)]
+    return [
+        dict(name="mode", pkg="internal/mode", harness=["harness/mode/c08.go"], runs=runs, solver="z3",
+             validate_runs=["H_C08_write(0,120,132)", "H_C08_write(1,0,8)", "H_C08_roundtrip(0,2,0,3)", "H_C08_roundtrip(1,2,125,128)", "H_C08_detect(4)"]),
+        dict(name="transport", pkg="internal/transport", harness=["harness/transport/c08.go"],
+             runs=["H_C08_errcode()", "H_C08_eof(0)", "H_C08_eof(1)", "H_C08_noncode(%d)" % (28 if q else 44)], solver="z3",
+             validate_runs=["H_C08_errcode()", "H_C08_noncode(28)"], covers={"H_C08_noncode": ["accepted"]}),
+    ]
+
 PROPS = {
+    "C08": dict(
+        jobs=_c08,
+        bounds={"quick": "abridged/intermediate frames for every word count 0..8 and 120..132 (both sides of the 127-word switch), all payload bits symbolic; unaligned lengths 0..17; sequences of 2 messages; arbitrary headers for <= 6 words; Detect on every 0..5 byte prefix; transport.ReadMsg: every 32-bit error word, frames of 0..28 bytes",
+                "thorough": "word counts 0..40, 100..140, 250..260, 16383..16384; sequences of 3; headers <= 12 words; frames 0..44"},
+        outside="segmentation by real TCP: the stub connection implements the exact-count read contract of tcpConn.Read (io.ReadFull in go-dry CancelableReader), which is assumed, not executed (goroutines + net.Conn); abridged lengths >= 2^24 words; frames longer than the bounds",
+        assumptions=["exact-count read contract for the connection (each Read(p) returns len(p) bytes or an error)"],
+    ),
     "C04": dict(
         jobs=_c04,
         bounds={"quick": "short packets: every length 0..39; key-holder forgeries: inner plaintext of 2..4 blocks with every bit (incl. the declared int32 length) symbolic; tampering: honest packets with bodies {0,4,12,16,20}, every single-bit flip position of key id / ciphertext, every truncation length, any other key; unencrypted parser: all inputs of length 0..40",
